@@ -45,7 +45,8 @@ def interpret(repo: Repo, overwrite: bool):
         log.append(("zip-open", str(path), mode))
         items = []
         for name, data in MEMBERS:
-            it = Record("ZipInfo", {"filename": name, "file_size": len(data)})
+            it = Record("ZipInfo", {"filename": name, "orig_filename": name, "file_size": len(data), "compress_size": len(data), "compress_type": 0, "external_attr": 0, "date_time": (1980, 1, 1, 0, 0, 0), "comment": b"", "extra": b"", "CRC": 0, "flag_bits": 0, "header_offset": 0})
+            it.fields["()is_dir"] = lambda _n=name: _n.endswith("/")
             items.append(it)
         z.fields["()infolist"] = lambda: list(items)
         z.fields["()namelist"] = lambda: [n for n, _ in MEMBERS]
